@@ -196,12 +196,22 @@ pub fn size_menu(maxk: usize, coarse: bool) -> (Vec<usize>, Vec<u8>) {
     }
 }
 
-/// A recycled buffer handed to `with_buffer`: stale content and spare capacity.
-pub fn dirty_buffer() -> Vec<u8> {
+/// A recycled buffer handed to `with_buffer`. Kind 1: stale content (7 bytes) and spare capacity; kind 2: empty with
+/// spare capacity (`Vec::with_capacity`); kind 3: two stale bytes (shorter than a length prefix).
+pub fn dirty_buffer(kind: u8) -> Vec<u8> {
     let mut v = Vec::with_capacity(64);
-    v.extend_from_slice(&[0xde, 0xad, 0xbe, 0xef, 0x81, 0x05, 0x00]);
+    match kind {
+        1 => v.extend_from_slice(&[0xde, 0xad, 0xbe, 0xef, 0x81, 0x05, 0x00]),
+        2 => {}
+        _ => v.extend_from_slice(&[0x81, 0x05]),
+    }
     v
 }
+
+/// The constructors a scenario can use: 0 = `new`, 1..=3 = `with_buffer(dirty_buffer(kind))`. Scenarios built with
+/// `with_buffer` also call `set_max_len(smaller)` + `set_max_len(original)` at every quiescent point where a frame may
+/// be in flight (a setter must not disturb a frame whose length was already accepted).
+pub const CTORS_ALL: [u8; 4] = [0, 1, 2, 3];
 
 /// Reference encoding of a `Vec<u8>` value: a definite array of unsigned integers, shortest heads.
 pub fn array_payload(v: &[u8]) -> Vec<u8> {
@@ -220,9 +230,9 @@ pub fn array_payload(v: &[u8]) -> Vec<u8> {
 /// Frames whose payload length crosses a byte boundary of the 4-byte length prefix.
 pub fn large_frames() -> Vec<Frame> {
     let mut out = Vec::new();
-    for (name, plen) in [("payload-255", 255usize), ("payload-256", 256), ("payload-257", 257), ("payload-65535", 65535), ("payload-65536", 65536), ("payload-65537", 65537)] {
+    for (name, plen) in [("payload-255", 255usize), ("payload-256", 256), ("payload-257", 257), ("payload-65535", 65535), ("payload-65536", 65536), ("payload-65537", 65537), ("payload-524288", 512 * 1024), ("payload-524289", 512 * 1024 + 1)] {
         // elements < 24 take one byte each; the array head takes 2 (len < 256) or 3 bytes
-        let n = if plen - 2 < 256 { plen - 2 } else { plen - 3 };
+        let n = if plen - 2 < 256 { plen - 2 } else if plen - 3 < 65536 { plen - 3 } else { plen - 5 };
         let v: Vec<u8> = (0..n).map(|i| (i % 23) as u8).collect();
         let payload = array_payload(&v);
         assert_eq!(payload.len(), plen);
